@@ -230,6 +230,25 @@ class IngestSuite(Suite):
                 return "stored-pep-is-not-the-minimum-over-all-psms"
         if set(best) - set(got):
             return "peptide-with-a-pep-missing-from-the-result"
+        # the proteins stored with the best PEP are those of the PSM that achieved it (first one reaching the minimum)
+        def norm(ps):
+            dec = [p.startswith("REV__") or p.startswith("rev_") for p in ps]
+            if any(dec) and not all(dec):
+                ps = [p for p, d in zip(ps, dec) if not d]
+            return sorted({("REV__" + p[4:]) if p.startswith("rev_") else p for p in ps})
+        owner = {}
+        for f in case["files"]:
+            for r in f["rows"]:
+                if r["pep"] is None:
+                    continue
+                ps = (f["map"] or {}).get(r["peptide"], []) if remap else r["proteins"]
+                if not ps:
+                    continue
+                if r["peptide"] not in owner or r["pep"] < owner[r["peptide"]][0]:
+                    owner[r["peptide"]] = (r["pep"], norm(ps))
+        for k, (s, ps) in got.items():
+            if case["fmt"] != "DIA-NN" and k in owner and norm(ps) != owner[k][1]:
+                return "best-pep-stored-with-the-proteins-of-another-psm"
         return None
 
     def shrink(self, case):
